@@ -493,6 +493,21 @@ def run(ctx):
                                           'gets the entry of its predecessor (a missing code that is not its own, so its missing samples come back as data)' % (
                                               norm(sub.value), norm(sub.slice), iv_)))
         ctx.floor('per-variable lists read in the variable loop', nsi, 4)
+        # the values are what the file holds: nothing is stored into the array built from the data column (limit-of-detection flags
+        # stay flags; replacing them changes data and loses the flag at the next write)
+        ctx.rule('R-VALSASREAD', 'reader: nothing is stored into the per-variable value array after it is built from the data column')
+        built = [st for st in lp.body if isinstance(st, ast.Assign) and isinstance(st.targets[0], ast.Name) and isinstance(st.value, ast.Call) and 'MaskedArray' in norm(st.value.func)]
+        if not built:
+            ctx.undec('R-VALSASREAD', 'values', 'src/PseudoNetCDF/%s ffi1001.__init__' % RP, 'construction of the value array not found')
+        else:
+            vn_ = built[0].targets[0].id
+            wr_ = [st for st in iter_stmts(lp.body) if isinstance(st, (ast.Assign, ast.AugAssign)) and any(isinstance(t, ast.Subscript) and isinstance(t.value, ast.Name) and t.value.id == vn_
+                                                                                                        for t in (st.targets if isinstance(st, ast.Assign) else [st.target]))]
+            if wr_:
+                ctx.violation(Finding('R-VALSASREAD', RP, 'ffi1001.__init__', wr_[0], 'samples of %s are overwritten after reading (%s): values equal to a flag come back as another number and the flag is lost '
+                                      'for good at the next write' % (vn_, norm(wr_[0])[:50])))
+            else:
+                ctx.ok('R-VALSASREAD', 'values', 'src/PseudoNetCDF/%s ffi1001.__init__' % RP, 'no store into %s' % vn_)
     # ---- R-LODSYM: the lower- and upper-limit-of-detection blocks of the reader use only their own names
     ctx.rule('R-LODSYM', 'reader: statements that build llod_* use no ulod_* name and vice versa (copy-paste symmetry)')
     nl = 0
